@@ -44,10 +44,13 @@ Wrap(c, x) ==
     [] c = 17 -> [n |-> Lit(BadFor(x), <<R("type", [t |-> "tref", s |-> "@B"])>>), path |-> <<>>]
     [] c = 18 -> [n |-> Obj(<<P(Ka, Lit(NumD(N1), <<R("type", [t |-> "tref", s |-> "@I"])>>)),
                               P(Kb, Lit(BadFor(x), <<R("type", [t |-> "tref", s |-> "@B"])>>))>>, <<>>), path |-> <<"b">>]
-Contexts == 0..18
+    \* the value sits in @B, a property of which @A0 inherits through allOf; @A0 is checked before @B (names in order): file and offset are @B's
+    [] c = 19 -> [n |-> Obj(<<P(Kp, Plain1)>>, <<>>), path |-> <<>>]
+Contexts == 0..19
+Inherited(c) == c = 19
 RefBad(c) == c \in {17, 18}
-InType(c) == c \in 10..14
-NonPlain(c) == c \in 10..18                 \* the root's example is not plain JSON (it names types): C04's forward half does not apply
+InType(c) == c \in 10..14 \/ c = 19
+NonPlain(c) == c \in 10..19                 \* the root's example is not plain JSON (it names types): C04's forward half does not apply
 
 RECURSIVE ExampleOf(_)
 ExampleOf(n) ==
@@ -85,20 +88,23 @@ VARIABLES leaf, ctx, good
 Init == /\ ctx \in Contexts
         /\ \/ (good = TRUE /\ leaf \in GoodLeaves /\ ~RefBad(ctx)) \/ (good = FALSE /\ leaf \in BadLeaves /\ ~RefBad(ctx))
            \/ (good = FALSE /\ RefBad(ctx) /\ leaf \in {x \in Schemas : x.t = "lit"} /\ BadSet(leaf) # {})
-        /\ (Level = 1 => (ctx \in {0, 1, 3, 4, 7, 8, 10, 12, 13, 14, 15, 17, 18}))
+        /\ (Level = 1 => (ctx \in {0, 1, 3, 4, 7, 8, 10, 12, 13, 14, 15, 17, 18, 19}))
         /\ (InType(ctx) => leaf.t = "lit")
         /\ (NonPlain(ctx) => leaf.t \in {"lit", "arr"})
         /\ (ctx \in {13, 14} => GoodSet(leaf) # {})
 Next == UNCHANGED <<leaf, ctx, good>>
 Spec == Init /\ [][Next]_<<leaf, ctx, good>>
 W == Wrap(ctx, leaf)
-EnvC == IF InType(ctx) \/ RefBad(ctx) THEN [Env0 EXCEPT !.types = @ \o <<[name |-> "@B", n |-> leaf]>>] ELSE Env0
+EnvI == [Env0 EXCEPT !.types = @ \o <<[name |-> "@A0", n |-> Obj(<<P(Kc, Plain1)>>, <<R("allOf", [t |-> "tref", s |-> "@B"])>>)],
+                                       [name |-> "@B", n |-> Obj(<<P(Kb, leaf)>>, <<>>)]>>]
+EnvC == IF Inherited(ctx) THEN EnvI ELSE IF InType(ctx) \/ RefBad(ctx) THEN [Env0 EXCEPT !.types = @ \o <<[name |-> "@B", n |-> leaf]>>] ELSE Env0
 \* what the requirement says about the example of the whole schema (for a value inside a type: about the type's own example)
-SelfVerdict == IF RefBad(ctx) THEN Verdict(EnvC, W.n, ExampleOf(W.n), FALSE)
+SelfVerdict == IF Inherited(ctx) THEN Verdict(Env0, leaf, leaf.v, FALSE)
+               ELSE IF RefBad(ctx) THEN Verdict(EnvC, W.n, ExampleOf(W.n), FALSE)
                ELSE IF InType(ctx) THEN Verdict(EnvC, leaf, leaf.v, FALSE)
                ELSE IF NonPlain(ctx) THEN Verdict(Env0, leaf, ExampleOf(leaf), FALSE)
                ELSE Verdict(Env0, W.n, ExampleOf(W.n), FALSE)
-Emit == PrintT("@@CASE " \o ToJson([schema |-> W.n, env |-> EnvC, good |-> good, path |-> W.path, intype |-> InType(ctx), plain |-> ~NonPlain(ctx),
+Emit == PrintT("@@CASE " \o ToJson([schema |-> W.n, env |-> EnvC, good |-> good, path |-> W.path, intype |-> InType(ctx), plain |-> ~NonPlain(ctx), tfile |-> IF Inherited(ctx) THEN "@B" ELSE "", tpath |-> IF Inherited(ctx) THEN <<"b">> ELSE <<>>,
                                    example |-> IF NonPlain(ctx) /\ ~RefBad(ctx) THEN ExampleOf(leaf) ELSE ExampleOf(W.n), self |-> SelfVerdict]))
 \* the generator is sound with respect to the requirement: good examples obey, corrupted ones do not
 GoodObeys == good => SelfVerdict # "reject"
